@@ -20,6 +20,7 @@ type Clause struct {
 	File  string
 	Line  int
 	Loop  int // for loop clauses
+	LoopFn string // loop of an inlined callee: its funcKey
 }
 
 type FuncContract struct {
@@ -332,7 +333,12 @@ func parseClauseLine(body, path string, ln int) (*Clause, error) {
 		if i < 0 {
 			return nil, fmt.Errorf("%s:%d: loop clause needs ':'", path, ln)
 		}
-		fmt.Sscanf(strings.TrimSpace(rest[:i]), "%d", &cl.Loop)
+		lid := strings.TrimSpace(rest[:i])
+		if j := strings.LastIndex(lid, "#"); j >= 0 {
+			cl.LoopFn = lid[:j]
+			lid = lid[j+1:]
+		}
+		fmt.Sscanf(lid, "%d", &cl.Loop)
 		rest = strings.TrimSpace(rest[i+1:])
 		fs := strings.Fields(rest)
 		cl.Kw = "loop-" + fs[0]
